@@ -175,6 +175,25 @@ def curated_inputs(tag):
             with open(os.path.join(d, "locales", l + ".json"), "w") as f:
                 json.dump(content, f)
         inputs.append((d, {"kind": "curated", "fmt": "json", "case": "inherits=%s" % json.dumps(inh)}))
+    # plural groups with few written forms, referenced with a literal count of every CLDR category of five locales
+    for forms in (("one",), ("zero",), ("few", "many"), ("two", "one"), ()):
+        d = os.path.join(root, "pl%d" % k)
+        k += 1
+        os.makedirs(os.path.join(d, "locales"))
+        plocs = ["en", "fr", "ru", "ar", "cy"]
+        with open(os.path.join(d, "Cargo.toml"), "w") as f:
+            f.write(gen.config_toml({"default": "en", "locales": plocs}))
+        for l in plocs:
+            content = {"items_other": "{{ count }} o", "rank_ordinal_other": "{{ count }} th"}
+            for fm in forms:
+                content["items_" + fm] = fm + " {{ count }}"
+                content["rank_ordinal_" + fm] = fm
+            for ci, cnt in enumerate([0, 1, 2, 3, 5, 11, 21, 100, 1000000, 1.5, 0.5, -1]):
+                content["c%d" % ci] = "$t(items, {\"count\": %s})" % json.dumps(cnt)
+                content["o%d" % ci] = "$t(rank, {\"count\": %s})" % json.dumps(cnt)
+            with open(os.path.join(d, "locales", l + ".json"), "w") as f:
+                json.dump(content, f)
+        inputs.append((d, {"kind": "curated", "fmt": "json", "case": "plural forms %s x literal counts" % (forms,)}))
     for i, c in enumerate(cases):
         d = os.path.join(root, str(i))
         os.makedirs(os.path.join(d, "locales"))
